@@ -34,3 +34,10 @@ Theorem C14_rpc_tables_clean : forall strict ls s, rrun strict r_init ls = Some 
   (v_closed (r_v s) = true -> v_tab (r_v s) = false).
 Proof. exact rpc_tables_clean. Qed.
 Print Assumptions C14_rpc_tables_clean.
+(* the goroutines spawned for a stream (finishers, the close / refusal goroutine, a pending window
+   update) run out of work: each of their steps strictly decreases a measure *)
+From GT Require Import RpcInv RpcProgress.
+Theorem C14_rpc_server_internal_steps_terminate : forall strict v l v' em,
+  vinv0 strict v = true -> In l v_internal -> vstep strict v l = Some (v', em) -> v_measure v' < v_measure v.
+Proof. exact rpc_server_internal_steps_terminate. Qed.
+Print Assumptions C14_rpc_server_internal_steps_terminate.
